@@ -17,13 +17,50 @@ from .ops import PyRaise, mk_exc
 from .sym import PList, SObj, SymBool, SymSeq, SymStr, mk_bool, mk_int
 
 
+class WSGIApplicationError(Exception):
+    """the application's own error, handed to start_response as exc_info (never raised by the model
+    itself: PEP 3333 lets start_response re-raise it only when output has already been sent)"""
+
+
+def _fresh_status(ctx, suffix=""):
+    """a status line "<code> <reason>": three digits, a space, a reason phrase -> (status, code)"""
+    from .sym import s_int, s_int_ok
+
+    code = ctx.fresh("wsgi.status_code" + suffix, z3.IntSort())
+    ctx.assume(z3.And(code >= 100, code <= 599))
+    ctx.inputs[str(code)] = code
+    reason = ctx.fresh("wsgi.reason" + suffix, z3.StringSort())
+    code_str = ctx.fresh("wsgi.status_digits" + suffix, z3.StringSort())
+    ctx.assume(z3.And(z3.Length(code_str) == 3, z3.Not(z3.Contains(code_str, z3.StringVal(" "))), s_int_ok(code_str), s_int(code_str) == code))
+    return SymStr(z3.Concat(code_str, z3.StringVal(" "), reason), "str"), code
+
+
+def _fresh_headers(ctx, suffix=""):
+    from .sym import PairSeq
+
+    return PList(sym=SymSeq(z3.Const(ctx.fresh_name("wsgi.headers" + suffix), PairSeq), "spair"))
+
+
 def _start(interp, body, fr):
+    """the application calls start_response(status, headers).  PEP 3333 also lets it call
+    start_response again, with exc_info, as long as no output has been produced: the status and
+    headers of that call replace the earlier ones (the application's error handler answering
+    instead).  The model makes that second call -- or not -- right after the first, i.e. before
+    any chunk exists; what the client must see is the last call's status and headers."""
     ctx = interp.ctx
     sr = body.fields["start_response"]
     status = body.fields["status"]
     interp.traces.setdefault("start_response_calls", []).append((status, body.fields["headers"]))
     interp.call_value(sr, [status, body.fields["headers"]], {}, fr)
     body.fields["started"] = True
+    if ctx.choose(2, f"wsgi.restart@{fr.line}", ["once", "again-with-exc_info"]) == 1:
+        status2, code2 = _fresh_status(ctx, ".2")
+        headers2 = _fresh_headers(ctx, ".2")
+        exc = SObj(WSGIApplicationError, {"args": ()}, tag="wsgi.app_error")
+        exc_info = (WSGIApplicationError, exc, interp.make_symbolic("opaque", "wsgi.traceback"))
+        interp.traces.setdefault("start_response_calls", []).append((status2, headers2))
+        body.fields["status"], body.fields["code"], body.fields["headers"] = status2, mk_int(code2), headers2
+        interp.call_value(sr, [status2, headers2, exc_info], {}, fr)
 
 
 @register(name="pyvc:WSGIApp")
@@ -35,20 +72,8 @@ class WSGIAppModel:
         ctx = interp.ctx
         environ, sr = args[0], args[1]
         interp.traces.setdefault("wsgi_calls", []).append((environ, sr))
-        code = ctx.fresh("wsgi.status_code", z3.IntSort())
-        ctx.assume(z3.And(code >= 100, code <= 599))
-        ctx.inputs[str(code)] = code
-        # "<code> <reason>": three digits, a space, a reason phrase
-        reason = ctx.fresh("wsgi.reason", z3.StringSort())
-        from .sym import s_int, s_int_ok
-
-        code_str = ctx.fresh("wsgi.status_digits", z3.StringSort())
-        ctx.assume(z3.And(z3.Length(code_str) == 3, z3.Not(z3.Contains(code_str, z3.StringVal(" "))), s_int_ok(code_str), s_int(code_str) == code))
-        status = SymStr(z3.Concat(code_str, z3.StringVal(" "), reason), "str")
-        from .sym import PairSeq
-
-        hs = z3.Const(ctx.fresh_name("wsgi.headers"), PairSeq)
-        body = SObj("pyvc:WSGIBody", {"start_response": sr, "status": status, "code": mk_int(code), "headers": PList(sym=SymSeq(hs, "spair")), "started": False,
+        status, code = _fresh_status(ctx)
+        body = SObj("pyvc:WSGIBody", {"start_response": sr, "status": status, "code": mk_int(code), "headers": _fresh_headers(ctx), "started": False,
                                       "has_close": SymBool(z3.Bool(ctx.fresh_name("wsgi.body.has_close"))), "n_close": 0}, tag="wsgi_body")
         mode = ctx.choose(3, f"wsgi.start@{fr.line}", ["eager", "lazy", "never"])
         body.fields["mode"] = ("eager", "lazy", "never")[mode]
